@@ -17,6 +17,14 @@ pub enum PidLiveness {
 }
 
 pub fn pid_liveness(pid: u32) -> PidLiveness {
+    #[cfg(rip_verif)]
+    if let Some(alive) = rip_kernel::verif::pid_alive(pid) {
+        return if alive {
+            PidLiveness::Alive
+        } else {
+            PidLiveness::Dead
+        };
+    }
     #[cfg(unix)]
     {
         use std::os::raw::c_int;
@@ -100,6 +108,8 @@ impl AuthorityLockGuard {
         let lock_path = authority_lock_path(&data_dir);
         let meta_path = authority_meta_path(&data_dir);
 
+        #[cfg(rip_verif)]
+        rip_kernel::verif::point("auth.acquire.create");
         let mut file = fs::OpenOptions::new()
             .create_new(true)
             .write(true)
@@ -112,12 +122,17 @@ impl AuthorityLockGuard {
             })?;
 
         let record = AuthorityLockRecord {
+            #[cfg(not(rip_verif))]
             pid: std::process::id(),
+            #[cfg(rip_verif)]
+            pid: rip_kernel::verif::pid().unwrap_or_else(std::process::id),
             started_at_ms: now_ms(),
             workspace_root: workspace_root.as_ref().to_string_lossy().to_string(),
         };
         let json =
             serde_json::to_vec(&record).map_err(|err| format!("lock record json failed: {err}"))?;
+        #[cfg(rip_verif)]
+        rip_kernel::verif::point("auth.acquire.write");
         file.write_all(&json)
             .and_then(|()| file.write_all(b"\n"))
             .map_err(|err| format!("write lock record failed: {err}"))?;
@@ -150,7 +165,11 @@ impl AuthorityLockGuard {
 
 impl Drop for AuthorityLockGuard {
     fn drop(&mut self) {
+        #[cfg(rip_verif)]
+        rip_kernel::verif::point("auth.release.meta");
         let _ = fs::remove_file(&self.meta_path);
+        #[cfg(rip_verif)]
+        rip_kernel::verif::point("auth.release.lock");
         let _ = fs::remove_file(&self.lock_path);
     }
 }
@@ -189,6 +208,8 @@ pub fn try_cleanup_stale_authority_files(
         return Ok(false);
     }
 
+    #[cfg(rip_verif)]
+    rip_kernel::verif::point("auth.stale.reread");
     let lock = match read_authority_lock_record(&data_dir) {
         Ok(Some(lock)) => lock,
         Ok(None) => return Ok(false),
@@ -211,12 +232,16 @@ pub fn try_cleanup_stale_authority_files(
         expected_started_at_ms,
         now_ms()
     ));
+    #[cfg(rip_verif)]
+    rip_kernel::verif::point("auth.stale.rename");
     match fs::rename(&lock_path, &lock_tombstone) {
         Ok(()) => {}
         Err(err) if err.kind() == std::io::ErrorKind::NotFound => return Ok(false),
         Err(err) => return Err(format!("rename stale lock failed: {err}")),
     }
 
+    #[cfg(rip_verif)]
+    rip_kernel::verif::point("auth.stale.meta");
     if let Ok(Some(meta)) = read_authority_meta(&data_dir) {
         if meta.pid == expected_pid {
             let meta_tombstone = meta_path.with_file_name(format!(
@@ -267,8 +292,12 @@ fn atomic_write_file(path: &Path, payload: &[u8]) -> std::io::Result<()> {
         fs::create_dir_all(parent)?;
     }
     let tmp = path.with_extension("tmp");
+    #[cfg(rip_verif)]
+    rip_kernel::verif::point("auth.meta.write_tmp");
     fs::write(&tmp, payload)?;
     let _ = fs::remove_file(path);
+    #[cfg(rip_verif)]
+    rip_kernel::verif::point("auth.meta.rename");
     fs::rename(tmp, path)?;
     Ok(())
 }
